@@ -11,11 +11,11 @@
    known finding encoded-edge-blank-lost; escaped length within max_length); content fitting the content mode
    (Characters: one value; Mixed: no two adjacent text items; otherwise sub-elements only); text items not blank; the
    parser's lookups pass; SHORT-NAME where named.
-   MISSING, named: (1) comments — Canon requires comment = None (a comment before an element is written as <!--c--> and
-   read back through utf8_lossy; side condition: "--" ++ c contains no "-->"; not proved); (2) the standalone flag of the
-   final state (preserved, not tracked in the proof); (3) the first half of C01_full, "what the loader returns is
-   canonical": false on the two known classes above, not proved outside them; (4) RootCanon states the header
-   attributes semantically (parse_file_header returns ver silently on them). *)
+   Comments are covered: a comment is UTF-8 and CommentOk (the lexer finds its end where the writer put it).
+   MISSING, named: (1) the first half of C01_full, "what the loader returns is canonical": false on the two known classes
+   above (a Pattern value with an escaped byte, a non-preserving String value with an encoded blank at an end), not
+   proved outside them — hence load(serialize(load d)) = load d is proved only through Canon; (2) RootCanon states the
+   header attributes semantically (parse_file_header returns ver silently on them). *)
 From AV Require Import Base.Bytes Base.Outcome Base.Utf8 Hash.HashModel Spec.SpecOps Spec.Versions
   Xml.Lexer Xml.Parser Xml.Serializer Xml.LexerProofs Xml.Escape Xml.RoundTripValues Xml.RoundTripAttrs
   Xml.RoundTripLexer Xml.StrictValidDef Xml.ParserDepth Xml.RoundTripElem Xml.RoundTripFile Xml.ParserExamples Xml.RoundTripExamples.
@@ -103,14 +103,24 @@ Theorem C01_lexer_text :
        Val (LOk (line + count_lines text) (EvChars text) (mk (60 :: X) (line + count_lines text) None)).
 Proof. exact lex_text. Qed.
 
-(* [U] one child element, written by ser_elem (any indentation, inline or not), is consumed by its parent loop and appended to the content as the same tree; by induction on the nesting depth d; recursion fuel f >= d and loop fuel lf > width suffice *)
+(* [U] the lexer on <!--c--> for a comment text that produces no earlier end marker (CommentOk: no "-->" in "<!--c--" ending before the last byte; the two dashes of the opening count) *)
+Theorem C01_lexer_comment :
+  forall (f : nat) (c tail : list N) (line : N),
+       CommentOk c ->
+       lex_next (S f) (mk (comment_text c ++ 62 :: tail) line None) =
+       Val
+         (LOk (line + count_lines (comment_text c)) (EvComment c)
+            (mk tail (line + count_lines (comment_text c)) None)).
+Proof. exact lex_comment. Qed.
+
+(* [U] one child element, written by ser_elem (any indentation, inline or not, with or without a comment in front), is consumed by its parent loop and appended to the content as the same tree; by induction on the nesting depth d; recursion fuel f >= d and loop fuel lf > width suffice *)
 Theorem C01_element_roundtrip :
   forall (strict : bool) (T : tables) (tab_el tab_at tab_en : nametab) (check_fn : N -> list N -> res bool)
          (float_fmt : N -> list N) (float_parse : list N -> option N) (ver : N) (d f lf : nat),
        (d <= f)%nat -> StepOK strict T tab_el tab_at tab_en check_fn float_fmt float_parse ver f lf d.
 Proof. exact elem_step. Qed.
 
-(* [U] load (xml header ++ ser_elem root) = root, without warnings, with the file version recovered; the fuel of load suffices *)
+(* [U] load (xml header ++ ser_elem root) = root, without warnings, with the file version and the standalone flag recovered; the fuel of load suffices *)
 Theorem C01_file_roundtrip :
   forall (strict : bool) (T : tables) (tab_el tab_at tab_en : nametab) (check_fn : N -> list N -> res bool)
          (float_fmt : N -> list N) (float_parse : list N -> option N) (ver : N) (root : etree) 
@@ -119,7 +129,7 @@ Theorem C01_file_roundtrip :
        ser_elem T tab_el tab_at tab_en float_fmt root 0 false = Val body ->
        exists st : pstate,
          load strict T tab_el tab_at tab_en check_fn float_parse (xml_header sa ++ body) = Val (Ret root st) /\
-         p_warnings st = [] /\ p_version st = ver.
+         p_warnings st = [] /\ p_version st = ver /\ p_standalone st = sa.
 Proof. exact file_roundtrip. Qed.
 
 (* [U] PARTIAL C01: load (serialize_file ver sa root) = root for canonical roots (see the header for what is missing) *)
@@ -132,7 +142,7 @@ Theorem C01_roundtrip_partial :
        serialize_file T tab_el tab_at tab_en check_fn float_fmt ver sa root = Val bs ->
        exists st : pstate,
          load strict T tab_el tab_at tab_en check_fn float_parse bs = Val (Ret root st) /\
-         p_warnings st = [] /\ p_version st = ver.
+         p_warnings st = [] /\ p_version st = ver /\ p_standalone st = sa.
 Proof. exact serialize_load_roundtrip. Qed.
 
 (* [U] serializing what was loaded gives the same bytes *)
